@@ -207,14 +207,12 @@ func (br *BlockReader) SkipNext() (*BlockMetadata, error) {
 	// carv1 and we don't know the size, so work it out and cache it so we
 	// can use it to determine over-reads
 	if canSeek && br.readerSize == -1 {
+		// Not every io.Seeker can seek (a pipe *os.File cannot) or find its end (the
+		// DataReader of a CARv1 Reader cannot): skip over block data by reading instead.
 		cur, err := brs.Seek(0, io.SeekCurrent)
 		if err != nil {
-			return nil, err
-		}
-		end, err := brs.Seek(0, io.SeekEnd)
-		if err != nil {
-			// Not every io.Seeker can find its end (the DataReader of a CARv1 Reader
-			// cannot): skip over block data by reading instead.
+			br.readerSize = readerSizeUnseekable
+		} else if end, err := brs.Seek(0, io.SeekEnd); err != nil {
 			br.readerSize = readerSizeUnseekable
 		} else {
 			br.readerSize = end
